@@ -61,7 +61,9 @@ def gen(r, quick):
             d = r.choice(units)
             d["defs"]["__wrap_" + s] = dict(tag=newtag(), weak=False)
         # references
-        solid = any(d["kind"] in ("obj", "lib") and True for d in definers)
+        # GNU ld does not export an executable's S for a library's reference when S is wrapped (the program then
+        # fails to start with either linker), so libraries only reference S when a library defines it
+        solid = any(d["kind"] == "lib" for d in definers)
         for u in exe_units:
             for nm, p in ((s, 0.55), ("__wrap_" + s, 0.2), ("__real_" + s, 0.35)):
                 if nm in u["defs"]:
@@ -163,7 +165,11 @@ def model(case, loaded):
             out[label] = t
     for l in libs:
         for nm in list(l["defs"]) + list(l["refs"]):
-            t = resolve(nm)     # dynamic loader: executable first, then libraries in DT_NEEDED order
+            # dynamic loader: executable first, then libraries in DT_NEEDED order; a wrapped S defined in the
+            # executable is not exported for library references (GNU ld behaviour)
+            t = resolve(nm)
+            if nm in wrapped and not any(nm in x["defs"] for x in libs):
+                t = None
             if t is None or t == "dup":
                 return ("reject", "undefined-in-lib")
             out[f"u{l['idx']}:{nm}"] = t
@@ -267,7 +273,8 @@ def one_case(ctx, ci, forced=None):
     libdirs = [d]
     outl = os.path.join(d, "ld.out")
     outw = os.path.join(d, "wild.out")
-    rl = rec.link("ld", args + ["-Wl,--trace"], outl)
+    mapf = os.path.join(d, "ld.map")
+    rl = rec.link("ld", args + ["-Wl,-Map=" + mapf], outl)
     rw = rec.link("wild", args, outw)
     rec.step("LD_LIBRARY_PATH=. ./ld.out; LD_LIBRARY_PATH=. ./wild.out")
     fp = sha(repr((case["kind"], case["order"], [(u["kind"], u["forced"], sorted(u["defs"]), sorted(u["refs"])) for u in case["units"]])))[:16]
@@ -297,9 +304,10 @@ def one_case(ctx, ci, forced=None):
         return
     # members loaded by GNU ld
     loaded = {u["idx"] for u in case["units"] if u["kind"] == "obj"}
-    for m in re.findall(r"\(([^()\s]+\.o)\)", rl.outtext() + rl.errtext()):
-        if os.path.basename(m) in member_of:
-            loaded.add(member_of[os.path.basename(m)])
+    maptext = open(mapf, errors="replace").read() if os.path.exists(mapf) else ""
+    for bn, ui in member_of.items():    # "libw.a(<member>)", or the member's own path for thin archives
+        if bn in maptext:
+            loaded.add(ui)
     exp = model(case, loaded)
     run_l = xlink.runprog(outl, libdirs=libdirs)
     if run_l.timed_out:
